@@ -11,4 +11,5 @@ var Registry = map[string]func(Args) error{
 	"find": Find,
 	"cer": CER,
 	"gate": Gate,
+	"handshake": Handshake,
 }
